@@ -9,7 +9,7 @@
 (* Display text (Judge_ExprKey compares it with the model's).                *)
 EXTENDS MC_C15, ExprKey, TextChars
 
-MCKnownA == { CharsOf(x) : x \in {"size", "hardlinks"} } \cup { <<"l","e","n","g","t","h">>, <<"n","a","m","e">> }
+MCKnownA == { CharsOf(x) : x \in {"size", "hardlinks", "line_count"} } \cup { <<"l","e","n","g","t","h">>, <<"n","a","m","e">> }
 PrefixA == <<"s","e","l","e","c","t"," ","p","a","t","h"," ","f","r","o","m"," ","'",".","'"," ","w","h","e","r","e"," ">>
 (* the character twin of Arith!ARender *)
 RECURSIVE ARenderC(_, _, _, _, _)
@@ -20,7 +20,8 @@ ARenderC(tk, i, parentPrec, rightChild, st) ==
   ELSE IF t \in BinOps THEN
      LET a == ARenderC(tk, i + 1, APrec(t), FALSE, st)
          b == ARenderC(tk, a[2], APrec(t), TRUE, st)
-         txt == a[1] \o <<" ">> \o CharsOf(t) \o <<" ">> \o b[1]
+         sp == IF st = "tight" THEN <<>> ELSE <<" ">>
+         txt == a[1] \o sp \o CharsOf(t) \o sp \o b[1]
          need == IF st = "full" THEN parentPrec > 0 ELSE APrec(t) < parentPrec \/ (APrec(t) = parentPrec /\ rightChild)
      IN << IF need THEN <<"(">> \o txt \o <<")">> ELSE txt, b[2] >>
   ELSE << CharsOf(t), i + 1 >>
